@@ -215,6 +215,21 @@ CHECKS = {
          "keys). Found and fixed: F11, F20, F07, F37."),
    design_ref='DESIGN.md §5 C15',
    note=COMMON_NOTE + "AES-256 and scrypt are reference code / hashlib, not proved; the EC-multiplied mode is covered by correspondence (vectors, generate-then-decrypt), not by theorems."),
+ 'C08': dict(
+   technique='Lean 4 invariant proof by induction over all operation histories of a ledger machine transcribed from the wallet table updates + random-history correspondence with real Wallet objects on sqlite (fake service layer)',
+   text=("Proved in Lean for the ledger machine (tables transactions / outputs / inputs / keys.balance as lists; operations new key, utxo_add incl. "
+         "re-adding a known outpoint, send = store + mark spent + _balance_update, delete, reopen, balance) for EVERY list of operations: "
+         "balance() = sum of unspent outputs; every key's stored balance = sum of that key's unspent outputs and the per-key balances add up to "
+         "the total; an outpoint consumed by a stored transaction is never unspent, and stays so under any later operations until that "
+         "transaction is deleted; reopening changes nothing reported; a stored transaction reloads as stored. The invariant has five clauses "
+         "(spent flags cover stored inputs, outputs name wallet keys, keys and consumed outpoints are duplicate-free, balance column = per-key "
+         "sums). The machine is compared after EVERY step of random histories (utxo_add, send_to/send/sweep broadcast, not broadcast and with a "
+         "failing push, transactions built by one Wallet object and imported as object / raw hex / dict into a second one and sent there, "
+         "transaction_delete of sent and stub transactions, close+reopen, new keys) with real wallets (HD legacy / segwit / p2sh-segwit, "
+         "single-key, multisig): utxos(), balance(), per-key balances through the open object AND a second Wallet object on the same database, "
+         "in random observation order; stored transactions are reloaded and compared (id, inputs, outputs, raw). Found and fixed: F17, F23, F24, F38."),
+   design_ref='DESIGN.md §5 C08',
+   note=COMMON_NOTE + "One network and one account per wallet; SQL semantics and two simultaneously open SQLAlchemy sessions are outside the model (a hand-off continues on the receiving object). Outputs on non-leaf keys of an HD wallet are not generated."),
 }
 
 NOT_YET = {}
